@@ -249,10 +249,13 @@ fn gen_programs(rng: &mut Rng, n: usize, seed: u64) -> Vec<Program> {
         let (label, forms) = match i % 4 {
             0 => {
                 let w = (i / 4) % FEATURE_PROGRAMS;
-                // CONS and VPUSH are emitted for quasiquote templates only: every feature session starts with some
+                // CONS and VPUSH are emitted for quasiquote templates only: every feature session starts with some;
+                // the VALUE of a quasiquoted vector is kept in a global and returned from a procedure, so that the
+                // clause `inline-vector` of safe-side-conditions sees what VPUSH left in %acc travel (fix 43d0413)
                 let k = rng.below(9);
                 let prefix = format!(
                     "`(1 ,(+ 1 {k}) #(a ,(list {k}) b ,{k}) (k . ,(car '(z)))) `#(,(vector {k}) (,{k}))
+                     (define qv0 `#(,(list 1 {k}))) (define (qf0 x) `#(1 ,x)) (define qu0 (qf0 (list 5 {k}))) (vector-ref qv0 0) qu0
                      (+ 1 (call/cc (lambda (k) (+ 2 (k {k}))))) (car (eval '(quote (a {k}))))"
                 );
                 (format!("feature{}", w), split_forms(&format!("{} {}", prefix, feature_program(rng, w))))
